@@ -17,6 +17,7 @@ import (
 func init() { register("C18", false, checkC18) }
 
 type c18 struct {
+	onLeak             func(key string) // set by R2 while a unit is walked: a lock held on one side of a meet only
 	seedBusy, seedMemo map[*types.Func]bool
 	c                  *Ctx
 	info               *types.Info
@@ -327,6 +328,20 @@ func (a *c18) locksetWalk(body *ast.BlockStmt, onAccess func(f *types.Var, write
 		}
 		if onExit != nil {
 			onExit(s, pos)
+		}
+	}
+	if a.onLeak != nil {
+		// where two paths meet, a lock held on one of them only (and not handed to a deferred
+		// release) stays locked on that path: must-hold facts alone forget it at the meet
+		cl.OnJoin = func(x, y Facts) Facts {
+			for _, pr := range [2][2]Facts{{x, y}, {y, x}} {
+				for k := range pr[0] {
+					if (strings.HasPrefix(k, "W:") || strings.HasPrefix(k, "R:")) && !pr[1][k] && !pr[0]["D:"+k[2:]] {
+						a.onLeak(k[2:])
+					}
+				}
+			}
+			return x.Meet(y)
 		}
 	}
 	fl := &Flow[Facts]{C: cl, Info: a.info}
@@ -791,6 +806,12 @@ func (a *c18) r2() {
 		msg := ""
 		var mpos token.Pos
 		selfDeadlock := ""
+		leaked := ""
+		a.onLeak = func(key string) {
+			if leaked == "" {
+				leaked = key
+			}
+		}
 		// closures inside (workers) are analysed as their own units below
 		unsup := a.locksetWalk(u.body, func(*types.Var, bool, token.Pos, Facts) {}, func(held []string, key string, pos token.Pos) {
 			for _, h := range held {
@@ -816,9 +837,12 @@ func (a *c18) r2() {
 				}
 			}
 		})
+		a.onLeak = nil
 		switch {
 		case len(unsup) > 0:
 			c.Unk("C18.R2", u.name+"#pairing", unsup[0].Pos(), "unsupported control flow")
+		case leaked != "" && msg == "":
+			c.Bad("C18.R2", u.name+"#pairing", u.pos, "lock %s is held on one path into a point where paths meet and not on the other, with no deferred release: the path that took it never gives it back, and the next acquisition blocks forever", leaked)
 		case selfDeadlock != "":
 			c.Bad("C18.R2", u.name+"#pairing", mpos, "lock %s is acquired while already held", selfDeadlock)
 		case msg != "":
